@@ -9,7 +9,7 @@ from ..core import cforest, clist, copt, cpair, cnat, cstr
 ID = "C01"
 THEOREM_FILE = "Properties/C01.v"
 META = {
-    "text": "Proof (Coq, coq/Properties/C01.v, 15 theorems, closed under the global context; any rule matcher, rulebooks of "
+    "text": "Proof (Coq, coq/Properties/C01.v, 19 theorems, closed under the global context; any rule matcher, rulebooks of "
             "any nesting with %global rules, any ordering rulebook, trees of any depth, rows no rule knows anywhere): on the "
             "device of coq/Model/Device.v (one entry per (rule,key) slot per level), executing path by path the cmd_paths of "
             "the model of _diff_and_patch for (old,new) reaches expected(R,old,new) (C01_expected: default, undo_redo, "
@@ -20,7 +20,12 @@ META = {
             "by exec); the patch is always computed in the domain (C01_no_error); the ordering hypothesis holds for every "
             "ordering rulebook without %order_reverse (C01_order_ok_default) and is necessary (C01_order_reverse_refuted); "
             "literal convergence is false by design for permanent / ignore_changes (C01_permanent_refuted, "
-            "C01_second_patch_not_empty_when_declined); exec_commute; cmd_paths follows the block nesting. Correspondence: "
+            "C01_second_patch_not_empty_when_declined); exec_commute; cmd_paths follows the block nesting. %ordered rules: for a level all of whose rows are leaves of "
+            "one %ordered rule, sequences of any length, in the computable domain wf_ord_flat (the key determines the row, "
+            "order_ok_o) executing the model's command paths on old yields new as a SEQUENCE - equality of forests "
+            "(C01_ordered_flat, C01_ordered_machine); without 'the key determines the row' the order-sensitive reading is "
+            "false: a re-texted %ordered row is re-created before rows that precede it in new (C01_ordered_retext_refuted, "
+            "replayed on the real pipeline, known finding). Correspondence: "
             "chains are run through the real _diff_and_patch / cmd_paths, Coq re-executes Device.exec on the REAL command "
             "paths, checks the runner's fed-back device state, the model's diff / patch / cmd_paths against the real ones, "
             "and evaluates P_C01's clauses (reaches expected, second patch a no-op and empty, second diff empty) per step.",
@@ -30,7 +35,8 @@ META = {
     "note": "Partial. Proved for the domain wf_C01 (computable guard): block formatter families (not the flattened "
             "Juniper/Nokia/RouterOS command forms), default diff logic, logics default/undo_redo/permanent/ignore_changes, no "
             "%force_commit, unambiguous removal commands, at most one row per (rule,key). Not proved (statements kept in "
-            "Properties/C01.v): %ordered, %rewrite, %multiline, second patch a no-op when a change was declined (checked on "
+            "Properties/C01.v): %ordered rows with bodies / mixed with other rules / below a block (only the flat one-rule "
+            "level is proved; the ordered reading P_C01o is evaluated on every real output), %rewrite, %multiline, second patch a no-op when a change was declined (checked on "
             "every real output), order_ok on the shipped ordering rulebooks (no translator of shipped rule texts yet). "
             "P_C01 is evaluated on real outputs also for %force_commit rulebooks. Vendor-specific %logic functions are out "
             "of the property's quantifier. Theorems are about the Gallina models; models are tied to /repo by the "
@@ -449,10 +455,40 @@ def witnesses() -> list[dict]:
               "old": {"interface Eth1": {"description a x": {}}}, "news": [{"interface Eth1": {"description a y": {}}}],
               "expect": {"in_domain": True, "reaches": True, "nothing_declined": False, "second_noop": True},
               "second_patch_nonempty": True})
+    # the %ordered row of key 2 changes its text: its direct command is emitted at the position of its REMOVED entry
+    rules = [_orule("entry *", mode="ordered")]
+    w.append({"name": "C01_ordered_retext_refuted", "vendor": "huawei", "rules": rules, "orules": [],
+              "old": {"entry 2 x": {}, "entry 5": {}, "entry 6": {}},
+              "news": [{"entry 7": {}, "entry 1 y": {}, "entry 2 y": {}}],
+              "expect": {"in_domain_o": True, "has_ordered": True, "reaches": True, "reaches_o": False},
+              "second_patch_nonempty": True})
     for c in w:
         c["patching"] = P.rules_text(c["rules"])
         c["ordering"] = P.ordering_text(c["orules"])
     return w
+
+
+def ordered_retext(rules: list[dict], inherited: list[dict], old: dict, new: dict) -> bool:
+    """some key of an %ordered rule has one row text in old and another in new, on a level both hold
+    (the class of C01_ordered_retext_refuted); only names the signature of a failure Coq has found"""
+    lv = level_rules(rules, inherited)
+    so = {}
+    for row in old:
+        s_ = crude_slot(row, lv)
+        if s_ and s_[0]["mode"] == "ordered":
+            so[(id(s_[0]), s_[1])] = row
+    for row in new:
+        s_ = crude_slot(row, lv)
+        if s_ and s_[0]["mode"] == "ordered" and so.get((id(s_[0]), s_[1]), row) != row:
+            return True
+    for row, sub in old.items():
+        if row in new:
+            s_ = crude_slot(row, lv)
+            if s_:
+                ck, inh = child_level(s_[0], rules, inherited)
+                if ordered_retext(ck, inh, sub, new[row]):
+                    return True
+    return False
 
 
 def payload(c: dict) -> dict:
@@ -599,7 +635,11 @@ def judge(ctx, cases, outs, res):
             if fl["in_domain_o"]:
                 bad = [c for c in CLAUSES_O if not fl[c]]
                 if bad and not (fl["in_domain"] and any(not fl[c] for c in CLAUSES)):
-                    failing.setdefault("ordered/" + "+".join(bad), (i, k, bad))
+                    st_ = outs[i]["steps"][k]
+                    if ordered_retext(cases[i]["rules"], [], st_["old"], st_["new"]):
+                        failing.setdefault("ordered/retext-reorders", (i, k, bad))    # one class, whatever follows from it
+                    else:
+                        failing.setdefault("ordered/" + "+".join(bad), (i, k, bad))
             for a in AGREE:
                 if not fl[a]:
                     disagree.setdefault(a, (i, k))
